@@ -334,13 +334,12 @@ theorem xmonotone_quad_pieces_monotone (p0 p1 p2 : Pt K) : ∀ q ∈ xmonoQuadK 
 example : ∃ t : ℚ, xmonoQuadK (Pt.mk (0 : ℚ) 0) (Pt.mk 2 1) (Pt.mk 1 2) = [quadL (Pt.mk 0 0) (Pt.mk 2 1) (Pt.mk 1 2) t, quadR (Pt.mk 0 0) (Pt.mk 2 1) (Pt.mk 1 2) t] :=
   ⟨2 / 3, by simp only [xmonoQuadK]; norm_num⟩
 
-/-! ## 6. the cubic replacement of arcs has a fixed relative error -/
+/-! ## 6. the cubic replacement of arcs (ReplaceArcs) has a fixed small relative error -/
 
 /-- `ellipseToCubicBeziers` on a 90° piece of the unit circle (control length `kappaK 1 √7`, the value
 of path_util.go:293 for sin 90° = 1, tan 45° = 1): the midpoint of the cubic lies between 1.9e-3 and
-2.0e-3 inside the circle. Hence ReplaceArcs has the fixed relative error the oracle allows (2.0e-3·rx),
-and Flatten of a non-circular arc (which goes through these cubics) cannot get closer than 1.9e-3·r to
-a quarter arc however small the tolerance — the recorded finding C03-elliptic-arc-error-floor. -/
+2.0e-3 inside the circle. This is the fixed small relative error of ReplaceArcs that the property allows
+and the oracle bounds by 2.0e-3·rx. (Flatten no longer goes through these cubics since f749928.) -/
 theorem arc_to_cube_quarter_midpoint_error (a : K) (ha : 0 ≤ a) (ha2 : a * a = 4 + 3 * (1 * 1)) :
     let k := kappaK 1 a
     let m := cubicBezierPos (Pt.mk 1 0) (Pt.mk 1 k) (Pt.mk k 1) (Pt.mk 0 1) (1 / 2)
